@@ -112,8 +112,10 @@ class Gen:
         if c=='func':
             # immediately-invoked closure or function value
             params=[self.fresh('p') for _ in range(r.choice([0,1,2]))]
+            arrow=r.choice([0,1])
+            self._next_concise=bool(arrow and r.random()<0.35)      # printed as an expression-bodied arrow
             body=self.funcbody(sc, params, d-1)
-            f=b.add(ty='func', params=params, body=body, name='', arrow=r.choice([0,1]), defs=self.defaults(sc, params))
+            f=b.add(ty='func', params=params, body=body, name='', arrow=arrow, defs=self.defaults(sc, params))
             if r.random()<0.7:
                 return b.add(ty='call', f=f, args=[self.expr(sc,d-1) for _ in params])
             return f
@@ -130,10 +132,53 @@ class Gen:
         return out
     def funcbody(self, sc, params, d):
         inner=dict(names=[(n,k) for n,k in sc['names'] if n not in params]+[(p,'let') for p in params], own=list(params), nested=True, funcs=list(sc['funcs']), inloop=False, labels=[], infunc=True, ingen=getattr(self,'_next_is_gen',False), gvars=list(sc.get('gvars',[])), gfuncs=list(sc.get('gfuncs',[])))
+        concise=getattr(self,'_next_concise',False); self._next_concise=False
+        if concise and not inner['ingen']:
+            self._next_is_gen=False
+            return self.b.add(ty='block', xs=[self.b.add(ty='return', a=self.expr(inner,max(1,d)))])
         self._next_is_gen=False
         xs=self.stmts(inner, d, self.r.randint(1,3))
         if self.r.random()<0.7: xs.append(self.b.add(ty='return', a=self.expr(inner,1)))
         return self.b.add(ty='block', xs=xs)
+    def forloop(self, sc, d, label):
+        """for (init; test; update) body: let in the head (a fresh copy of the binding per iteration, observable through
+        closures), var / expression / empty head, missing test (the body breaks), missing update (the body counts)"""
+        r=self.r; b=self.b
+        i=self.fresh('i'); lim=r.choice([1,2,3]); pre=[]
+        form=r.choice(['let','let','let','var','expr','none'])
+        if form=='let': init=b.add(ty='decl', kind='let', name=i, a=b.add(ty='num', v=0))
+        elif form=='var': init=b.add(ty='decl', kind='var', name=i, a=b.add(ty='num', v=0))
+        else:
+            pre.append(b.add(ty='decl', kind='let', name=i, a=b.add(ty='num', v=0) if form=='none' else 0))
+            init=b.add(ty='assign', name=i, a=b.add(ty='num', v=0)) if form=='expr' else 0
+        lt=lambda: b.add(ty='bin', op='<', a=b.add(ty='var', name=i), b=b.add(ty='num', v=lim))
+        inc=lambda: b.add(ty='update', op='++', prefix=r.choice([0,1]), name=i) if r.random()<0.7 else b.add(ty='assign', name=i, a=b.add(ty='bin', op='+', a=b.add(ty='var', name=i), b=b.add(ty='num', v=1)))
+        hastest=r.random()<0.85; hasupd=r.random()<0.8
+        kw=dict(inloop=True, inswitch=False)
+        if label: kw.update(labels=sc['labels']+[label], looplabels=sc.get('looplabels',[])+[label])
+        if form!='let': sc['names'].append((i,'let'))
+        inner=self.child(sc, **kw)
+        inner['names']=[(n,k) for n,k in inner['names'] if n!=i]+[(i,'const')]      # the generated body only reads the counter ...
+        head=[]; tail=[]
+        if not hastest:       # ... the loop is left by a break at the top of the body
+            head.append(b.add(ty='if', a=b.add(ty='unary', op='!', a=lt()), b=b.add(ty='block', xs=[b.add(ty='break', label='')]), c=0))
+        cap=None
+        if r.random()<0.4:    # a closure per iteration, called after the loop
+            cap=self.fresh('v'); self.bind(sc, cap, 'const'); pre.append(b.add(ty='decl', kind='let', name=cap, a=b.add(ty='func', params=[], body=b.add(ty='block', xs=[b.add(ty='return', a=b.add(ty='num', v=-1))]), name='', arrow=1, defs=[])))
+            head.append(b.add(ty='exprstmt', a=b.add(ty='assign', name=cap, a=b.add(ty='func', params=[], body=b.add(ty='block', xs=[b.add(ty='return', a=b.add(ty='var', name=i))]), name='', arrow=1, defs=[]))))
+        if r.random()<0.3:    # ... except for explicit steps: they must survive into the next iteration's copy
+            head.append(b.add(ty='exprstmt', a=b.add(ty='update', op='++', prefix=0, name=i)))
+        if not hasupd:
+            # without an update expression the body counts (before anything that could `continue`)
+            head.append(b.add(ty='exprstmt', a=inc()))
+        body=b.add(ty='block', xs=head+self.stmts(inner, d-1, r.randint(1,3))+tail)
+        loop=b.add(ty='for', init=init, test=lt() if hastest else 0, upd=inc() if hasupd else 0, body=body)
+        if label: loop=b.add(ty='labeled', label=label, body=loop)
+        out=pre+[loop]
+        if cap:
+            out.append(b.add(ty='log', a=b.add(ty='call', f=b.add(ty='var', name=cap), args=[])))
+        if form!='let': out.append(b.add(ty='log', a=b.add(ty='var', name=i)))
+        return out
     def stmts(self, sc, d, n):
         out=[]
         late=[]
@@ -161,17 +206,21 @@ class Gen:
     def child(self, sc, **kw):
         c=dict(names=list(sc['names']), funcs=list(sc['funcs']), inloop=sc['inloop'], labels=list(sc['labels']), infunc=sc['infunc'], ingen=sc.get('ingen',False), gvars=list(sc.get('gvars',[])), gfuncs=list(sc.get('gfuncs',[])))
         c['own']=[]; c['nested']=True
+        c['inswitch']=sc.get('inswitch',False); c['looplabels']=list(sc.get('looplabels',[]))
         c.update(kw); return c
     def stmt(self, sc, d):
         r=self.r; b=self.b
         if len(b.nodes) > self.limit: d=0
         ch=['log']*4+['decl']*3+['expr']*2
         if d>0: ch+=['if']*2+['while']*2+['block','try','try','funcdecl','labeled','dowhile']
+        if d>0 and getattr(self,'forswitch',True): ch+=['for']*2+['switch']*2+['lloop']
         if d>0 and getattr(self,'objects',False): ch+=['forof']*2
         if d>0 and getattr(self,'gens',False): ch+=['gendecl']*2
         if getattr(self,'gens',False) and sc.get('gfuncs'): ch+=['geninst']*3
         if sc['inloop']: ch+=['break','continue']
+        elif sc.get('inswitch'): ch+=['break']
         if sc['labels']: ch+=['lbreak']
+        if sc.get('looplabels'): ch+=['lcontinue']*2
         if sc['infunc']: ch+=['return']
         ch+=['throw']
         c=r.choice(ch)
@@ -203,6 +252,39 @@ class Gen:
             test=b.add(ty='bin', op='<', a=b.add(ty='var', name=i), b=b.add(ty='num', v=lim))
             return [dcl, b.add(ty=c, a=test, b=body)]
         if c=='block': return b.add(ty='block', xs=self.stmts(self.child(sc), d-1, r.randint(1,3)))
+        if c=='for': return self.forloop(sc, d, None)
+        if c=='lloop':
+            # a label directly in front of a loop: `break L` and `continue L` from nested statements and loops
+            l=self.fresh('L')
+            kind=r.choice(['for','for','while','forof'] if getattr(self,'objects',False) else ['for','for','while'])
+            if kind=='for': return self.forloop(sc, d, l)
+            if kind=='forof':
+                name=self.fresh('x')
+                it=b.add(ty='arrlit', xs=[self.expr(sc,1) for _ in range(r.choice([1,2,3]))])
+                inner=self.child(sc, inloop=True, labels=sc['labels']+[l], looplabels=sc.get('looplabels',[])+[l]); self.bind(inner, name, 'const')
+                body=b.add(ty='block', xs=self.stmts(inner, d-1, r.randint(1,3)))
+                return b.add(ty='labeled', label=l, body=b.add(ty='forof', kind='const', name=name, a=it, body=body))
+            i=self.fresh('i'); lim=r.choice([1,2,3])
+            dcl=b.add(ty='decl', kind='let', name=i, a=b.add(ty='num', v=0))
+            sc['names'].append((i,'let'))
+            inc=b.add(ty='exprstmt', a=b.add(ty='update', op='++', prefix=0, name=i))
+            inner=self.child(sc, inloop=True, labels=sc['labels']+[l], looplabels=sc.get('looplabels',[])+[l])
+            inner['names']=[(n,k) for n,k in inner['names'] if n!=i]+[(i,'const')]
+            body=b.add(ty='block', xs=[inc]+self.stmts(inner, d-1, r.randint(1,3)))
+            test=b.add(ty='bin', op='<', a=b.add(ty='var', name=i), b=b.add(ty='num', v=lim))
+            return [dcl, b.add(ty='labeled', label=l, body=b.add(ty='while', a=test, b=body))]
+        if c=='switch':
+            pool=[lambda: b.add(ty='num', v=r.choice([0,1,2,3])), lambda: b.add(ty='str', cs=cs(r.choice(['a','b','1']))), lambda: b.add(ty='bool', v=1), lambda: b.add(ty='null'), lambda: b.add(ty='nan'), lambda: self.expr(sc,1)]
+            disc=r.choice(pool[:2]+pool)() if r.random()<0.75 else self.expr(sc,2)
+            n=r.randint(1,4); dflt=r.choice(list(range(n))+[-1])
+            inner=self.child(sc, inswitch=True)        # the whole case block is ONE scope: a `let` of an earlier clause is visible (and maybe uninitialised) in a later one
+            tests=[]; bodies=[]
+            for j in range(n):
+                tests.append(0 if j==dflt else r.choice(pool[:2]+pool[:2]+pool)())
+                xs=self.stmts(inner, d-1, r.randint(0,2))
+                if r.random()<0.55: xs.append(b.add(ty='break', label=''))
+                bodies.append(xs)
+            return b.add(ty='switch', a=disc, tests=tests, bodies=bodies)
         if c=='gendecl':
             name=self.fresh('g'); params=[self.fresh('p') for _ in range(r.choice([0,1]))]
             self._next_is_gen=True
@@ -256,6 +338,7 @@ class Gen:
         if c=='break': return b.add(ty='break', label='')
         if c=='continue': return b.add(ty='continue', label='')
         if c=='lbreak': return b.add(ty='break', label=r.choice(sc['labels']))
+        if c=='lcontinue': return b.add(ty='continue', label=r.choice(sc['looplabels']))
         if c=='return': return b.add(ty='return', a=self.expr(sc,1) if r.random()<0.8 else 0)
         if c=='throw':
             if r.random()<0.5: return None
@@ -356,6 +439,10 @@ def pr(P, n, ind=0):
         a='async ' if ASYNC else ''
         rt=''
         if DECO and DECO.random()<0.4: use('ann:return_arrow' if d['arrow'] else 'ann:return'); rt=': '+DECO.choice(['any','unknown','void | any'])
+        bd=P['nodes'][d['body']-1]
+        if d['arrow'] and bd['ty']=='block' and len(bd['xs'])==1 and P['nodes'][bd['xs'][0]-1]['ty']=='return' and P['nodes'][bd['xs'][0]-1].get('a'):
+            # concise body: ( params ) => ( expression )
+            return f"({a}({ps}){rt} => ({E(P['nodes'][bd['xs'][0]-1]['a'])}))"
         if DECO:
             gen=DECO.choice(['','','<T>','<T, U extends object = {}>']) if not d['arrow'] else ''
             if gen: use('generic_fn')
@@ -388,6 +475,17 @@ def pr(P, n, ind=0):
         s=f"{I}if ({E(d['a'])}) {pr(P,d['b'],ind)}"
         if d['c']: s+=f" else {pr(P,d['c'],ind)}"
         return s+"\n"
+    if t=='for':
+        if d['init'] and P['nodes'][d['init']-1]['ty']=='decl':
+            di=P['nodes'][d['init']-1]; h=f"{di['kind']} {di['name']}" + (f" = {E(di['a'])}" if di['a'] else '')
+        else: h=E(d['init']) if d['init'] else ''
+        return f"{I}for ({h}; {E(d['test']) if d['test'] else ''}; {E(d['upd']) if d['upd'] else ''}) {pr(P,d['body'],ind)}\n"
+    if t=='switch':
+        s=f"{I}switch ({E(d['a'])}) {{\n"
+        for tst,xs in zip(d['tests'],d['bodies']):
+            s+=f"{I}  case {E(tst)}:\n" if tst else f"{I}  default:\n"
+            s+=''.join(prs(P,x,ind+2) for x in xs)
+        return s+f"{I}}}\n"
     if t=='while': return f"{I}while ({E(d['a'])}) {pr(P,d['b'],ind)}\n"
     if t=='dowhile': return f"{I}do {pr(P,d['b'],ind)} while ({E(d['a'])});\n"
     if t=='break': return f"{I}break{' '+d['label'] if d['label'] else ''};\n"
@@ -414,7 +512,9 @@ def pr(P, n, ind=0):
             use('overload'); I2=I
             return f"{I}function {d['name']}({', '.join(p+': number' for p in d['params'])}): void;\n{I}function {d['name']}{gen}({ps}){rt} {pr(P,d['body'],ind)}\n"
         return f"{I}{'async ' if (ASYNC and not star) else ''}function{star} {d['name']}{gen}({ps}){rt} {pr(P,d['body'],ind)}\n"
-    if t=='labeled': return f"{I}{d['label']}: {pr(P,d['body'],ind)}\n"
+    if t=='labeled':
+        bd=pr(P,d['body'],ind)
+        return f"{I}{d['label']}: {bd.lstrip() if P['nodes'][d['body']-1]['ty']!='block' else bd+chr(10)}"
     if t=='program': return ''.join(prs(P,x,ind) for x in d['xs'])
     raise Exception(t)
 def prs(P,n,ind):
